@@ -183,7 +183,11 @@ def run(tier, selftest):
     for i, r in enumerate(frag):
         if "panic" in r:
             rep.violation(f"load_fragment:panic:{meta[2 * i]['mutation']}", f"load_fragment panicked: {r['panic']}", {"kind": "doc", "meta": meta[2 * i], "text": docs[2 * i][0], "strict": False})
-    events = [pc.load_event(r, s, None) if ("IF_DATA" not in t and "A2ML" not in t) else None for r, (t, s) in zip(results, docs)]
+    # (documents with IF_DATA / A2ML are judged too: Parser.tla interprets IF_DATA through A2ml.tla; a mutation that hits
+    # the A2ML text itself makes a definition this driver does not know - load_event then returns None)
+    def a2ml_text_intact(t):
+        return "A2ML" not in t or pc.DOCGEN_A2ML_TEXT in t
+    events = [pc.load_event(r, s, None) if a2ml_text_intact(t) else None for r, (t, s) in zip(results, docs)]
     rejected, _, _, njudged = pc.judge_events(events, PID)
     for k, names in sorted(rejected.items()):
         r = results[k]
@@ -215,7 +219,7 @@ def run(tier, selftest):
         "exhaustive": True,
         "evaluations": lsum["loads"] + len(docs) + len(frag) + 2 * len(hostile) + nf,
         "distinct_nontrivial": n_lex + len(docs) // 2 + len(hostile),
-        "rule": "TLC-enumerated byte strings and token soups (tokenizer compared with Lexer.tla, four load entry points each), token-level mutations of positive documents (judged by Parser.tla when free of IF_DATA/A2ML), hostile A2ML x IF_DATA payloads in isolated processes, random byte files; non-trivial = every distinct input",
+        "rule": "TLC-enumerated byte strings and token soups (tokenizer compared with Lexer.tla, four load entry points each), token-level mutations of positive documents (judged by Parser.tla (IF_DATA through A2ml.tla)), hostile A2ML x IF_DATA payloads in isolated processes, random byte files; non-trivial = every distinct input",
         "samples": [{"bytes": [47, 98, 101, 103, 105, 110, 32, 65, 50, 77, 76, 32, 34]}, {"mutation": meta[5], "text": docs[5][0][:200]}, hostile[4]],
         "lexer_inputs": n_lex,
         "loads_on_lexer_inputs": lsum["loads"],
